@@ -80,6 +80,7 @@ def run(ctx, rep):
     m = ctx.m
     r6(ctx, rep)
     r7(ctx, rep)
+    r8(ctx, rep)
     R1 = rep.rule('C16.R1', 'loop-overwrite lint: no accumulator attribute is plainly assigned inside a loop')
     ft = ast.parse(FIXTURE)
     fhits = [tgt for st, tgt in loop_overwrites(ft.body[0])]
@@ -485,3 +486,20 @@ def r7(ctx, rep):
                 rep.finding(R7, f'C16.R7/{mod}:{qn}/memoised', m.loc(mod, fn), qn, f'`@{d}` memoises a function that builds a node')
     rep.floor('C16.R7', 'functions building nodes', nfn, 40)
     rep.floor('C16.R7', 'node constructors', len(ctors), 15)
+
+
+def r8(ctx, rep):
+    """`Tableau.open` is a linqset: "the open view lists exactly the unclosed branches" also means that its positional reads
+    (open[i], open[-k], open.index(b)) answer by its contents.  The black-box read pass of the linked ordered set on
+    containers of 5-7 members, after removals (closing a branch removes it), is imported from sa.ordset (C18.R8)."""
+    from .. import ordset
+    m = ctx.m
+    R8 = rep.rule('C16.R8', 'the open view answers positional reads by its contents: tools/linked.linqset (the type of Tableau.open) rebuilt from source, every index, '
+                            'negative index and index() on sets of 5-7 members, also after removals, agree with the list model')
+    res, cons = ordset.fold_linqset_reads(m)
+    rep.consult(*cons)
+    for ok, op, case, detail in res:
+        rep.instance(R8, ok=ok, nontrivial=case)
+        if not ok:
+            rep.finding(R8, f'C16.R8/{case}', m.relfile('pytableaux.tools.linked'), 'linqset', f'{case}: {detail}')
+    rep.floor('C16.R8', 'read cases', len(res), 9)
